@@ -27,7 +27,10 @@ from concurrent.futures import ThreadPoolExecutor
 from harness import common as C
 
 PID = "C08"
-GEN = ["MatchConsts"]      # V2/BindRun.v uses the real matcher (Val.Match) for the FlowStarted match
+GEN = ["MatchConsts", "C08Consts"]   # V2/BindRun.v uses the real matcher (Val.Match) for the FlowStarted
+                                     # match and the translated shape of that match (Gen/C08Consts.v)
+O5_IS_FINDING = True
+O5_SIG = "await-hangs-callee-changes-global-used-in-argument"
 
 PREAMBLE = """From Coq Require Import ZArith List String.
 From NG Require Import Val.Value V2.Bind V2.BindRun.
@@ -614,6 +617,41 @@ def gen_prog_O4(rng):
     return {"flows": flows, "family": "O4", "ordered": True}
 
 
+def gen_prog_G(rng):
+    """family G (O5): a well-formed await whose callee assigns a global that a call argument
+    mentions, before the callee is started.  The direct oracle applies."""
+    sig = gen_sig(rng, "f", n=rng.randint(1, 3))
+    names = [p[0] for p in sig["params"]]
+    v1, v2 = rng.sample([1, 2, 3, 5, 8, "a", "b1", 2.5, True], 2)
+    args = gen_args(rng, sig, ["y"], "wf")
+    # make one argument mention $g
+    gexpr = rng.choice([["var", "g"], ["list", [["var", "g"], ["lit", 1]]], ["dict", [["k", ["var", "g"]]]]])
+    pos = [a for a in args if a[0] == "pos"]
+    if pos and rng.random() < 0.6:
+        pos[rng.randrange(len(pos))][1] = gexpr
+    else:
+        named = [a for a in args if a[0] == "named"]
+        if named:
+            named[rng.randrange(len(named))][2] = gexpr
+        else:
+            free = names[len(pos):]
+            if free:
+                args.append(["named", free[0], gexpr])
+            else:
+                pos[-1][1] = gexpr
+    syntax, args = pick_syntax(rng, args)
+    want_ret = rng.random() < 0.8
+    body = [["global", "g"], ["assign", "loc", ["lit", rand_value(rng, 1)]], ["assign", "g", ["lit", v2]],
+            echo_of(1, names + ["loc", "g"]), ["return", rand_expr(rng, names + ["loc"], 1, 0.6)]]
+    sig["body"] = body
+    mbody = [["global", "g"], ["assign", "g", ["lit", v1]], ["assign", "loc", ["lit", rand_value(rng, 1)]],
+             ["assign", "y", ["lit", rand_value(rng, 1)]],
+             ["call", "await", syntax, "f", args, "x" if want_ret else None],
+             echo_of(2, ["x", "loc", "y", "g"]), ["echo", 99, []], ["wait"]]
+    main = {"name": "main", "params": [], "rets": [], "body": mbody}
+    return {"flows": [sig, main], "family": "G", "kind": "wf", "ordered": True}
+
+
 def gen_prog_R(rng):
     """family R: a recursive flow; every level assigns the same-named local before the inner call
     and echoes it afterwards.  The direct oracle applies (privacy between instances of one flow)."""
@@ -902,54 +940,89 @@ def same_value(a, b):
 
 
 def oracle_prog_A(prog, res):
-    """family A, well-formed call whose named arguments are parameters: echoed parameters follow the
-    binding rule with the argument expressions evaluated in the caller at the call; `$x = await`
-    receives the returned value; caller's locals are untouched by the callee's assignments."""
-    if prog.get("family") != "A" or prog.get("kind") != "wf":
+    """families A and G, well-formed call whose named arguments are parameters: echoed parameters
+    follow the binding rule with the argument expressions evaluated in the caller at the call;
+    `$x = await` receives the returned value; caller's locals are untouched by the callee's
+    assignments; variables declared `global` are shared."""
+    if prog.get("family") not in ("A", "G") or prog.get("kind") != "wf":
         return None
     f, main = prog["flows"]
     call = [st for st in main["body"] if st[0] == "call"][0]
     _, form, _syntax, _f, args, ret = call
-    caller = {}
+    G = {}
+
+    class Inst:
+        def __init__(self):
+            self.local = {}
+            self.declared = set()
+
+        def view(self):
+            d = dict(self.local)
+            for x in self.declared:
+                d[x] = G.get(x)
+            return d
+
+        def assign(self, k, v):
+            if k in self.declared:
+                G[k] = v
+            else:
+                self.local[k] = v
+
+        def declare(self, x):
+            self.declared.add(x)
+            G.setdefault(x, None)
+
+    caller = Inst()
     for st in main["body"]:
         if st[0] == "assign":
-            caller[st[1]] = pyeval(st[2], caller)
-        if st[0] == "call":
+            caller.assign(st[1], pyeval(st[2], caller.view()))
+        elif st[0] == "global":
+            caller.declare(st[1])
+        elif st[0] == "call":
             break
     pos = [a[1] for a in args if a[0] == "pos"]
     named = {a[1]: a[2] for a in args if a[0] == "named"}
-    callee = {}
+    callee = Inst()
+    at_call = caller.view()
     for i, (nm, dflt) in enumerate(f["params"]):
         if i < len(pos):
-            callee[nm] = pyeval(pos[i], caller)
+            callee.local[nm] = pyeval(pos[i], at_call)
         elif nm in named:
-            callee[nm] = pyeval(named[nm], caller)
+            callee.local[nm] = pyeval(named[nm], at_call)
         elif dflt is not None:
-            callee[nm] = pyeval(dflt, {})
+            callee.local[nm] = pyeval(dflt, {})
         else:
-            callee[nm] = None
+            callee.local[nm] = None
     for nm, dflt in f["rets"]:
-        callee[nm] = pyeval(dflt, {}) if dflt is not None else None
+        callee.local[nm] = pyeval(dflt, {}) if dflt is not None else None
     expect = []
     returned = ("none",)
     for st in f["body"]:
         if st[0] == "assign":
-            callee[st[1]] = pyeval(st[2], callee)
+            callee.assign(st[1], pyeval(st[2], callee.view()))
+        elif st[0] == "global":
+            callee.declare(st[1])
         elif st[0] == "echo":
-            expect.append((st[1], [(k, pyeval(e, callee)) for k, e in st[2]]))
+            expect.append((st[1], [(k, pyeval(e, callee.view())) for k, e in st[2]]))
         elif st[0] == "return":
-            returned = ("value", None if st[1] is None else pyeval(st[1], callee))
+            returned = ("value", None if st[1] is None else pyeval(st[1], callee.view()))
             break
         elif st[0] == "wait":
             break
     if ret is not None:
         if returned[0] == "none":
             return None
-        caller[ret] = returned[1]
+        caller.assign(ret, returned[1])
     for st in main["body"]:
         if st[0] == "echo" and st[1] != 99:
-            expect.append((st[1], [(k, pyeval(e, caller)) for k, e in st[2]]))
+            expect.append((st[1], [(k, pyeval(e, caller.view())) for k, e in st[2]]))
     if res.get("outcome") != 2:
+        if prog.get("family") == "G":
+            if not O5_IS_FINDING:
+                return None
+            got1 = [items for t, items in (res.get("echoes") or []) if t == 1]
+            return (O5_SIG, "caller of a well-formed await waits forever (outcome=%s): the callee ran with %s and changed the global `g` that a call argument mentions; `$%s` is never assigned"
+                    % (res.get("outcome"), got1[0] if got1 else "?", ret or "x"))
         return ("well-formed-call-does-not-complete", f"main did not reach its end: outcome={res.get('outcome')} {res.get('msg', '')}")
     got = {t: items for t, items in res["echoes"]}
     for t, items in expect:
@@ -977,6 +1050,14 @@ def oracle_prog_A(prog, res):
 # ---------------------------------------------------------------------------------------
 
 
+def _flags():
+    try:
+        from translator import gen_c08
+        return gen_c08.started_match_flags()
+    except Exception as e:  # reported as a broken translator by build_and_audit
+        return {"error": str(e)}
+
+
 def bind_term(sig, ev, res):
     items = [(k, v) for k, v in ev["items"]]
     shared = None if ev["shared"] is None else cctx([(k, v) for k, v in ev["shared"]])
@@ -988,17 +1069,18 @@ def bind_term(sig, ev, res):
         x = f"(XBound {cctx(res['args'])} {cctx(res['ctx'])})"
     else:
         return None
-    return f"({cparams(sig['params'])}, {cparams(sig['rets'])}, {cctx(items)}, {C.coq_option(shared)}, {x})"
+    sh = "(None : option ctx)" if shared is None else f"(Some {shared})"
+    return f"({cparams(sig['params'])}, {cparams(sig['rets'])}, {cctx(items)}, {sh}, {x})"
 
 
 def prog_term(prog, res):
     ordered = prog.get("ordered", True)
     if res["echoes"] is None:
-        echoes = "None"
+        echoes = "(None : option (list (Z * ctx)))"
     else:
         echoes = "(Some (" + C.coq_list([f"({C.coq_Z(t)}, {cctx(items)})" for t, items in res["echoes"]]) + " : list (Z * ctx)))"
     if res.get("finals") is None:
-        finals = "None"
+        finals = "(None : option (list ctx * ctx))"
     else:
         finals = "(Some ((" + C.coq_list([cctx(items) for _fid, items in res["finals"]]) + " : list ctx), " + cctx(res["globals"]) + "))"
     return f"({cprog(prog)}, {C.coq_bool(ordered)}, {echoes}, {C.coq_Z(res['outcome'])}, {finals})"
@@ -1022,6 +1104,7 @@ def run(tier, seed, replay=None):
     n_B = 500 if tier == "quick" else 5000
     n_O4 = 30 if tier == "quick" else 200
     n_R = 80 if tier == "quick" else 800
+    n_G = 40 if tier == "quick" else 400
 
     # ---- cases: corpus first, then replay, then generated
     bind_cases = []   # (sig, ev)
@@ -1037,7 +1120,7 @@ def run(tier, seed, replay=None):
     if replay:
         d = json.load(open(replay))
         stored.append(d.get("replay", d))
-        n_sig = n_A = n_B = n_O4 = n_R = 0
+        n_sig = n_A = n_B = n_O4 = n_R = n_G = 0
     for d in stored:
         if d.get("kind") == "bind":
             bind_cases.append((d["sig"], d["ev"]))
@@ -1055,6 +1138,8 @@ def run(tier, seed, replay=None):
         prog_cases.append(gen_prog_O4(rng))
     for _ in range(n_R):
         prog_cases.append(gen_prog_R(rng))
+    for _ in range(n_G):
+        prog_cases.append(gen_prog_G(rng))
 
     # ---- run the implementation
     jobs = []
@@ -1086,6 +1171,7 @@ def run(tier, seed, replay=None):
     obs = {"O1_surplus_positional_not_rejected": 0, "O1_surplus_rejected_by_exception": 0,
            "O2_double_binding_positional_wins": 0, "O3_unknown_named_argument_ignored": 0,
            "O4_await_without_return_fails_caller": 0,
+           "O5_wellformed_await_hangs_after_callee_changed_global_argument": 0,
            "e2e_caller_left_waiting_forever": 0, "e2e_run_to_completion_raised": 0, "e2e_caller_failed": 0}
     obs_examples = {}
     dist = {"bind_results": {}, "bind_shapes": {}, "prog_outcomes": {}, "prog_families": {}, "call_forms": {},
@@ -1179,6 +1265,9 @@ def run(tier, seed, replay=None):
             if prog.get("family") == "O4":
                 obs["O4_await_without_return_fails_caller"] += 1
                 obs_examples.setdefault("O4_await_without_return_fails_caller", {"program": res["src"], "echoes": res["echoes"]})
+        if prog.get("family") == "G" and oc == 3:
+            obs["O5_wellformed_await_hangs_after_callee_changed_global_argument"] += 1
+            obs_examples.setdefault("O5_wellformed_await_hangs_after_callee_changed_global_argument", {"program": res["src"], "echoes": res["echoes"]})
         if prog.get("family") == "A" and prog.get("kind") == "unknown" and oc == 3:
             obs["O3_unknown_named_argument_ignored"] += 1
             obs_examples.setdefault("O3_unknown_named_argument_ignored", {"program": res["src"], "echoes": res["echoes"]})
@@ -1225,7 +1314,8 @@ def run(tier, seed, replay=None):
         "correspondence_disagreements": n_bind_dis + n_prog_dis,
         "oracle_violations": len(out.findings),
         "observations_outside_the_premise": {"counts": obs, "examples": obs_examples,
-            "text": "O1: surplus positional arguments are rejected only when the flow has no parameter or more than 2n are given; otherwise the callee runs with the first n, its context gains keys `$j`, and the caller waits forever (its FlowStarted match mentions `$n`). O2: a parameter given positionally and by name gets the positional value; the caller waits forever when the two values differ. O3: a named argument that is no parameter is ignored by the callee and leaves the caller waiting forever. O4: `$x = await f` where f ends without executing `return` fails the caller (ColangValueError on `.arguments.return_value`). O5: call arguments are re-evaluated when FlowStarted arrives, so a callee that changes a global used in the arguments before it starts leaves the caller waiting. None of these is claimed or counted as a violation: the property text presupposes a corresponding positional or named argument and a value given to `return`."},
+            "text": "O1: surplus positional arguments are rejected only when the flow has no parameter or more than 2n are given; otherwise the callee runs with the first n, its context gains keys `$j`, and the caller waits forever (its FlowStarted match mentions `$n`). O2: a parameter given positionally and by name gets the positional value; the caller waits forever when the two values differ. O3: a named argument that is no parameter is ignored by the callee and leaves the caller waiting forever. O4: `$x = await f` where f ends without executing `return` fails the caller (ColangValueError on `.arguments.return_value`). O1-O4 are not claimed or counted as violations: the property text presupposes a corresponding positional or named argument and a value given to `return`. O5 (KNOWN FINDING, well-formed call): the caller's FlowStarted match re-evaluates the call arguments when the event arrives, so a callee that changes a global used in an argument before it is started leaves the caller of `$x = await f(..)` waiting forever; reported through the oracle with signature " + O5_SIG + "; candidate repair fixes/C08-flowstarted-match.patch (not applied: it changes match specificity scores).",
+            "flowstarted_match_carries_call_arguments": _flags()},
     })
     out.assumptions += [
         "expression evaluation is an arbitrary total function eval : ctx -> expr -> value in the theorems (expressions that raise are outside the model); the correspondence uses literals of every value type, variables, list/dict displays and `$n - 1`",
